@@ -200,7 +200,7 @@ def det_pkgs_c08():
 IDENTS = ["alpha", "beta", "gamma", "delta", "eps", "zeta", "eta", "theta"]
 
 
-def mixed_pkg(rng, errors=0):
+def mixed_pkg(rng, errors=0, go_type_errors=0):
     """2-5 XGo files + 0-2 Go files with types, methods, vars, consts, funcs that refer to one
     another ACROSS files (on-demand symbol loading), optionally with `errors` compile errors in the
     XGo files (undefined names / type mismatches) and at most ONE erroneous Go-file type."""
@@ -269,6 +269,10 @@ def mixed_pkg(rng, errors=0):
             tgt.append("func Err%d() {\n\tvar s string = %d\n\t_ = s\n}\n" % (e, e))
         else:
             tgt.append("type Err%d struct {\n\tf NoSuchType%d\n}\n" % (e, e))
+    for _ in range(go_type_errors if gfiles else 0):
+        # erroneous type declarations in the Go files: loaded by initGopPkg (sorted names since the repair)
+        e = rng.below(1000)
+        rng.choice(gfiles).append("type GErr%d struct {\n\tf NoSuchG%d\n}\n" % (e, e))
     files = []
     xn = list(XNAMES)
     gn = list(GNAMES)
